@@ -198,7 +198,7 @@ def run_coq_cases(header, terms, workdir, per_shard=60, timeout=1200, tag="cases
     shards = [terms[i:i + per_shard] for i in range(0, len(terms), per_shard)]
     files = []
     for k, sh_terms in enumerate(shards):
-        p = os.path.join(workdir, "%s_%d.v" % (tag, k))
+        p = os.path.join(workdir, "%s_%d.v" % (re.sub(r"[^A-Za-z0-9_]", "_", tag), k))
         with open(p, "w") as f:
             f.write(header + "\nSet Printing Width 1000000.\nSet Printing Depth 100000000.\n")
             for t in sh_terms:
